@@ -33,10 +33,15 @@
     [C01_no_use_after_free]: no thread ever faults and no step of the run touches the count of a
     destroyed value; [C01_no_fault_events]: no fault event at all when only enabled threads are
     scheduled; [C01_site_alive]: at every count access the value's count is at least 1.
+
+    RUN LENGTH INSTEAD OF [GenBound] ([ASModel.GenLen]): without the [set_generation] hook a generation
+    counter grows by at most 4 per step from 0, so for every run of fewer than 2^62 steps [GenBound]
+    holds in every state by itself; [RunOKLen] is [RunOK] with that hypothesis replaced by the bound
+    on the length of the schedule, and the theorem holds for it as well ([..._len] below).
 *)
 From ASModel Require Import Base State Orderings_gen Step Run Progress Hist Local Inv InvTl InvProto InvStep Sum StepCases.
 From ASModel Require Import GenDefs Gen1 Gen2 Gen EnvDefs Env4 Env AccDefs Acc1 Acc2 Acc3 Acc4 Acc5 Acc6 Acc7 Acc.
-From ASModel Require Import ProtDefs Prot1 Prot11 Prot16 Prot Typed LinDefs Lin2 Lin Safe1 Safe2 Safe7 Safe8 Safe Main RunOKEx.
+From ASModel Require Import ProtDefs Prot1 Prot11 Prot16 Prot Typed LinDefs Lin2 Lin Safe1 Safe2 Safe7 Safe8 Safe Main GenLen RunOKEx.
 
 Theorem C01_dec : forall s a,
   match heap s a with
@@ -114,6 +119,18 @@ Theorem C01_master_invariant : forall cf s t x,
   GenBound s -> ProgOK s -> alloc_ok s t x -> Master s -> Master (fst (step cf s t x)).
 Proof. exact step_Master. Qed.
 
+Theorem C01_no_use_after_free_len : forall cf inits progs sched,
+  RunOKLen cf inits progs sched ->
+  NoFault (run_state cf (init_state inits progs) sched) /\
+  forall te, In te (snd (run cf (init_state inits progs) sched)) ->
+    forall a, ~ In (EvFault (FDeadInc a)) (snd te) /\ ~ In (EvFault (FDeadDec a)) (snd te).
+Proof. exact GenLen.C01_no_use_after_free_len. Qed.
+
+Theorem C01_gen_bound_from_length : forall cf inits progs sched,
+  progs_ok progs -> 4 * N.of_nat (length sched) + 4 < WORD ->
+  forall k, GenBound (run_state cf (init_state inits progs) (firstn k sched)).
+Proof. exact GenBound_len. Qed.
+
 Print Assumptions C01_dec.
 Print Assumptions C01_inc.
 Print Assumptions C01_fast_confirm.
@@ -137,3 +154,5 @@ Print Assumptions C01_example_no_fault.
 Print Assumptions C01_no_fault_events.
 Print Assumptions C01_no_dead_access.
 Print Assumptions C01_master_invariant.
+Print Assumptions C01_no_use_after_free_len.
+Print Assumptions C01_gen_bound_from_length.
